@@ -46,6 +46,9 @@ type iwEntry struct {
 
 type iwLoader struct {
 	goos, goarch string
+	sizes        types.Sizes
+	std          types.Importer
+	quiet        bool // 32-bit pass: type errors (overflows) are expected, not refusals
 	pkgs         map[string]*types.Package
 	entries      map[string]iwEntry // key file:line:col
 	nfiles       int
@@ -60,7 +63,7 @@ func (l *iwLoader) Import(path string) (*types.Package, error) {
 		}
 		return l.load(rel)
 	}
-	return theImporter.std.Import(path)
+	return l.std.Import(path)
 }
 
 func (l *iwLoader) load(dir string) (*types.Package, error) {
@@ -94,7 +97,7 @@ func (l *iwLoader) load(dir string) (*types.Package, error) {
 	l.nfiles += len(files)
 	info := &types.Info{Types: map[ast.Expr]types.TypeAndValue{}}
 	var terrs []string
-	conf := types.Config{Importer: l, Sizes: types.SizesFor("gc", "amd64"), FakeImportC: true,
+	conf := types.Config{Importer: l, Sizes: l.sizes, FakeImportC: true,
 		Error: func(err error) { terrs = append(terrs, err.Error()) }}
 	path := "github.com/deepteams/webp"
 	if dir != "." {
@@ -102,7 +105,7 @@ func (l *iwLoader) load(dir string) (*types.Package, error) {
 	}
 	pkg, _ := conf.Check(path, fset, files, info)
 	l.pkgs[dir] = pkg
-	if len(terrs) > 0 {
+	if len(terrs) > 0 && !l.quiet {
 		// a package that does not type-check with 64-bit sizes for this file
 		// selection cannot be listed completely
 		refuse("intwidth: %s does not type-check for %s/%s: %s", dir, l.goos, l.goarch, terrs[0])
@@ -129,7 +132,9 @@ func (l *iwLoader) load(dir string) (*types.Package, error) {
 			v = constant.ToInt(v)
 		}
 		if v.Kind() != constant.Int {
-			refuse("intwidth: constant of type %s with non-integer value at %s", b.Name(), fset.Position(e.Pos()))
+			if !l.quiet {
+				refuse("intwidth: constant of type %s with non-integer value at %s", b.Name(), fset.Position(e.Pos()))
+			}
 			continue
 		}
 		s, _ := zlit(v)
@@ -173,7 +178,8 @@ func genIntWidth() (string, string) {
 	all := map[string]iwEntry{}
 	var targets []string
 	for _, t := range intWidthTargets {
-		l := &iwLoader{goos: t.goos, goarch: t.goarch, pkgs: map[string]*types.Package{}, entries: map[string]iwEntry{}}
+		l := &iwLoader{goos: t.goos, goarch: t.goarch, sizes: types.SizesFor("gc", "amd64"), std: theImporter.std,
+			pkgs: map[string]*types.Package{}, entries: map[string]iwEntry{}}
 		for _, pd := range pkgDirs {
 			if _, err := l.load(pd.dir); err != nil {
 				refuse("intwidth: cannot load %s for %s/%s: %v", pd.dir, t.goos, t.goarch, err)
@@ -183,6 +189,31 @@ func genIntWidth() (string, string) {
 			all[k] = e
 		}
 		targets = append(targets, fmt.Sprintf("%s/%s (%d files)", t.goos, t.goarch, l.nfiles))
+	}
+	// Width-dependent constant expressions (math.MaxInt, ^uint(0)>>1, bits.UintSize, ...)
+	// have a different value where int is 32 bits wide.  Second pass: the same
+	// sources evaluated with 32-bit sizes against the width-dependent standard packages
+	// (math, math/bits, strconv) type-checked for GOARCH=386.  Where that pass records a value different from the 64-bit
+	// one, the 32-bit value is the one the target's compiler sees and is listed
+	// (the 64-bit value is kept in a comment).  Where it records none (the
+	// expression does not type-check with 32-bit int: overflow), the 64-bit
+	// value stays and fails the range obligation.
+	widthDep := map[string]string{} // key -> 64-bit value
+	{
+		std386 := &std32Importer{pkgs: map[string]*types.Package{}}
+		l := &iwLoader{goos: "linux", goarch: "386", sizes: types.SizesFor("gc", "386"), std: std386, quiet: true,
+			pkgs: map[string]*types.Package{}, entries: map[string]iwEntry{}}
+		for _, pd := range pkgDirs {
+			l.load(pd.dir)
+		}
+		for k, e32 := range l.entries {
+			if e64, ok := all[k]; ok && e64.kind == e32.kind && e64.val != e32.val {
+				widthDep[k] = e64.val
+				e64.val = e32.val
+				e64.src += " [width-dependent; 64-bit value " + strings.Trim(widthDep[k], "()") + "]"
+				all[k] = e64
+			}
+		}
 	}
 	var es []iwEntry
 	seen := map[string]bool{}
@@ -219,25 +250,87 @@ func genIntWidth() (string, string) {
 	b.WriteString("(* GENERATED by tools/gosrc2v (intwidth.go) from /repo's current source. Do not edit.\n")
 	b.WriteString("   Every constant expression whose final type is int / uint / uintptr in the files\n")
 	b.WriteString("   `go build` selects for a 32-bit target: " + strings.Join(targets, ", ") + ".\n")
-	b.WriteString("   Entry: (position \"file:line:col  source\", exact value). *)\n")
-	b.WriteString("From Coq Require Import ZArith List String.\nImport ListNotations.\nOpen Scope Z_scope.\nOpen Scope string_scope.\n\n")
+	b.WriteString("   Per file: (line, column, exact value).  The source text is shown as a comment for\n")
+	b.WriteString("   values outside [-32768, 32767]. *)\n")
+	b.WriteString("From Coq Require Import ZArith List String.\nImport ListNotations.\nOpen Scope Z_scope.\n\n")
 	for _, kind := range []string{"int", "uint"} {
-		fmt.Fprintf(&b, "Definition %s_constants : list (string * Z) := [\n", kind)
-		first := true
+		fmt.Fprintf(&b, "Definition %s_constants : list (string * list (Z * Z * Z)) := [", kind)
 		n := 0
+		cur := ""
+		col := 0
 		for _, e := range es {
 			if e.kind != kind {
 				continue
 			}
-			if !first {
-				b.WriteString(";\n")
+			if e.file != cur {
+				if cur != "" {
+					b.WriteString("]);")
+				}
+				fmt.Fprintf(&b, "\n (\"%s\"%%string, [\n  ", coqString(e.file))
+				cur = e.file
+				col = 0
+			} else {
+				b.WriteString(";")
+				if col > 90 {
+					b.WriteString("\n  ")
+					col = 0
+				}
 			}
-			first = false
 			n++
-			fmt.Fprintf(&b, " (\"%s:%d:%d  %s\", %s)", coqString(e.file), e.line, e.col, coqString(e.src), e.val)
+			item := fmt.Sprintf("(%d,%d,%s)", e.line, e.col, e.val)
+			if len(e.val) > 5 || strings.Contains(e.src, "width-dependent") {
+				item += " (* " + strings.NewReplacer("(*", "( *", "*)", "* )").Replace(coqString(e.src)) + " *)"
+			}
+			b.WriteString(item)
+			col += len(item)
+		}
+		if cur != "" {
+			b.WriteString("])")
 		}
 		b.WriteString("\n].\n\n")
-		fmt.Fprintf(&b, "Definition %s_constants_count : nat := %d.\n\n", kind, n)
+		fmt.Fprintf(&b, "Definition %s_constants_count : Z := %d.\n\n", kind, n)
 	}
 	return "IntWidth.v", b.String()
+}
+
+// std32Importer serves the standard packages that define int-width-dependent
+// constants (math.MaxInt/MinInt/MaxUint, bits.UintSize, strconv.IntSize)
+// type-checked from $GOROOT/src with 32-bit sizes and the GOARCH=386 file
+// selection; every other standard package comes from the normal importer (their
+// constants do not depend on the width of int).
+type std32Importer struct {
+	pkgs map[string]*types.Package
+}
+
+var widthDependentStd = map[string]bool{"math": true, "math/bits": true, "strconv": true}
+
+func (s *std32Importer) Import(path string) (*types.Package, error) {
+	if !widthDependentStd[path] {
+		return theImporter.std.Import(path)
+	}
+	if p, ok := s.pkgs[path]; ok {
+		return p, nil
+	}
+	ctx := build.Default
+	ctx.GOOS, ctx.GOARCH, ctx.CgoEnabled = "linux", "386", false
+	bp, err := ctx.Import(path, "", 0)
+	if err != nil {
+		return nil, err
+	}
+	fset := token.NewFileSet()
+	var files []*ast.File
+	for _, n := range bp.GoFiles {
+		f, err := parser.ParseFile(fset, filepath.Join(bp.Dir, n), nil, 0)
+		if err != nil {
+			return nil, err
+		}
+		files = append(files, f)
+	}
+	conf := types.Config{Importer: s, Sizes: types.SizesFor("gc", "386"), FakeImportC: true, Error: func(error) {}}
+	pkg, _ := conf.Check(path, fset, files, nil)
+	if pkg == nil {
+		return nil, fmt.Errorf("intwidth: cannot type-check %s for 386", path)
+	}
+	s.pkgs[path] = pkg
+	return pkg, nil
 }
